@@ -72,7 +72,7 @@ def spaces():
     st["corpus"] = corpus
     wbase = st["d1"] + corpus + docs.hash_slice(core, 8000, "C01-wrapc") + docs.hash_slice(d2, 4000, "C01-wrap")
     st["wrap"] = list(dict.fromkeys(wrap(d, k) for k in ("bq", "ul", "ol") for d in wbase))
-    st["edges"] = list(dict.fromkeys(docs.link_edges() + docs.leaf_edges() + docs.families() + docs.inline_emph(6) + docs.inline_links() + docs.container_pairs() + docs.corpus_marker_variants() + docs.multi_pairs()))
+    st["edges"] = list(dict.fromkeys(docs.link_edges() + docs.leaf_edges() + docs.families() + docs.inline_emph(6) + docs.inline_links() + docs.container_pairs() + docs.corpus_marker_variants() + docs.multi_pairs() + docs.inline_edges()))
     return st
 
 
@@ -340,7 +340,7 @@ def run(ctx):
     blocks.linkrecog(ctx)      # link_recognisers_total, lrd_total: no IndexError / assert, indices in range, progress
     blocks.inlinerecog(ctx)    # inline_recognisers_total_partial, tag scanners, fuel sufficiency
     blocks.emphasis(ctx)       # resolve_total_partial, fuel_sufficient_partial, fuel_monotone
-    ctx.block("bqcountlib", "bqcount")          # block-quote marker counting: totality / termination / spec (Verif.Props.BqCount)
+    ctx.block("bqcountlib", "bqcount", __import__("blocks").SRC["bqcount"])          # block-quote marker counting: totality / termination / spec (Verif.Props.BqCount)
     rej_ok, rej_txt = natural_definition_rejected()
     if not rej_ok:
         ctx.broken.append({"closeLoopNatural_not_rejected": rej_txt})
